@@ -1,6 +1,6 @@
 (* C01 / C12 / C19 correspondence driver. One case = schema, value, oracle fragments, and the
    observation of VisitJSON on the Go side in the three modes. *)
-From KV Require Import Model.Base Model.Json Model.Schema Spec.SchemaSpec Spec.SchemaGuards.
+From KV Require Import Model.Base Model.Json Model.Schema Spec.SchemaSpec Spec.SchemaGuards Spec.SchemaGuardsRW.
 Local Open Scope list_scope.
 
 (* Go observation per mode: 0 = nil, 1 = error, 2 = panic *)
@@ -10,6 +10,7 @@ Record scase := mkSCase {
   k_compiles : list (string * bool);
   k_matches : list (string * string * bool);
   k_formats : list (string * string * json * bool);   (* kind, format, value, ok *)
+  k_mode : N;   (* 0 plain, 1 as request, 2 as request without read-only checks, 3 as response, 4 as response without write-only checks *)
   g_default : N; g_failfast : N; g_multi : N;
   g_def_errs : list (string * list string * json);
   g_multi_errs : list (string * list string * json);
@@ -30,16 +31,20 @@ Fixpoint lk_fmt (t : list (string * string * json * bool)) (k f : string) (v : j
       if String.eqb k k' && String.eqb f f' && json_text_eqb v v' then Some b else lk_fmt r k f v
   end.
 
+Definition with_mode (m : N) (st : settings) : settings :=
+  mkSt (st_failfast st) (st_multi st)
+       (N.eqb m 1 || N.eqb m 2) (N.eqb m 3 || N.eqb m 4) (N.eqb m 2) (N.eqb m 4).
+
 Definition class_of (o : outcome) : N := match o with Ok => 0 | Err _ => 1 | Panic _ => 2 end.
 
 Definition run_model (k : scase) (st : settings) : outcome :=
   visit (lk_compiles (k_compiles k)) (lk_match (k_matches k)) (lk_fmt (k_formats k)) st (k_schema k) (k_value k).
 Definition run_spec (k : scase) : bool :=
-  satb (lk_compiles (k_compiles k)) (lk_match (k_matches k)) (lk_fmt (k_formats k)) (k_schema k) (k_value k).
+  satb (lk_compiles (k_compiles k)) (lk_match (k_matches k)) (lk_fmt (k_formats k)) (md_of (with_mode (k_mode k) st_default)) (k_schema k) (k_value k).
 
-Definition m_default k := run_model k st_default.
-Definition m_failfast k := run_model k st_failfast_.
-Definition m_multi k := run_model k st_multi_.
+Definition m_default k := run_model k (with_mode (k_mode k) st_default).
+Definition m_failfast k := run_model k (with_mode (k_mode k) st_failfast_).
+Definition m_multi k := run_model k (with_mode (k_mode k) st_multi_).
 
 Definition classes_same (k : scase) : bool :=
   N.eqb (class_of (m_default k)) (g_default k) && N.eqb (class_of (m_failfast k)) (g_failfast k) &&
@@ -55,6 +60,7 @@ Definition guard_class (k : scase) : N :=
   else if negb (g_small s) then 4
   else if negb (g_div s (k_value k)) then 5
   else if negb (g_pattern rc s) then 6
+  else if negb (g_rw rc (lk_match (k_matches k)) (lk_fmt (k_formats k)) (md_of (with_mode (k_mode k) st_default)) s) then 7
   else 0.
 
 Definition judge_C01 (k : scase) : N :=
